@@ -67,6 +67,18 @@ func (c *sessClient) setCookies(op string) []string {
 		return []string{"p=" + v + "; Path=/a"}
 	case "domain-scoped":
 		return []string{"d=" + v + "; Domain=h1.example.com"}
+	case "domain-public-suffix":
+		return []string{"ps=" + v + "; Domain=co.uk", "pc=" + v + "; Domain=com"}
+	case "domain-foreign":
+		return []string{"df=" + v + "; Domain=unrelated.example.net"}
+	case "domain-parent":
+		return []string{"dp=" + v + "; Domain=example.com", "du=" + v + "; Domain=example.co.uk"}
+	case "samesite":
+		return []string{"ss=" + v + "; SameSite=Strict", "sl=" + v + "; SameSite=None; Secure"}
+	case "expires-future":
+		return []string{"ef=" + v + "; Expires=Fri, 01 Jan 2100 00:00:00 GMT"}
+	case "maxage-zero-then-set":
+		return []string{"mz=gone; Max-Age=0", "mz=" + v}
 	case "secure":
 		return []string{"s=" + v + "; Secure"}
 	case "httponly":
